@@ -45,8 +45,13 @@ def workloads(X):
             n.add_child(X.XMLDuration(2))
             n.xml_type = 'quarter'
             box['n'] = n
+        def tied():
+            n = box['n']
+            nt = n.add_child(X.XMLNotations())
+            nt.add_child(X.XMLTied(type='start'))
+            return n.to_string()
         return obs([mk, lambda: setattr(box['n'], 'color', '#FF0000'), lambda: box['n'].to_string(),
-                    lambda: setattr(box['n'], 'nonsense', 1)])
+                    lambda: setattr(box['n'], 'nonsense', 1), tied, lambda: X.XMLTied().to_string()])   # last: required attribute omitted
 
     def words():
         box = {}
@@ -54,7 +59,8 @@ def workloads(X):
             d = X.XMLDirectionType()
             d.add_child(X.XMLWords('hello', font_size=12, font_family='Arial', relative_y=-3, enclosure='none'))
             box['d'] = d
-        return obs([mk, lambda: box['d'].to_string(), lambda: X.XMLWords('x', halign='left', nonsense='1')])
+        return obs([mk, lambda: box['d'].to_string(), lambda: X.XMLWords('x', halign='left', nonsense='1'),
+                    lambda: X.XMLOctaveShift(type='up').to_string(), lambda: X.XMLOctaveShift().to_string()])
 
     def measure():
         box = {}
@@ -85,7 +91,8 @@ def workloads(X):
             r.add_child(X.XMLRootStep('C', text='C'))
             h.add_child(X.XMLKind('major', use_symbols='yes'))
             box['h'] = h
-        return obs([mk, lambda: box['h'].to_string()])
+        return obs([mk, lambda: box['h'].to_string(), lambda: X.XMLDegreeType('add').to_string(), lambda: X.XMLSupports(type='yes', element='x').to_string(),
+                    lambda: X.XMLSupports(type='yes').to_string()])
     return dict(note=note, words=words, measure=measure, barline=barline, harmony=harmony)
 
 
